@@ -57,7 +57,8 @@ def run(chk, repo, tier):
         n += 1
         ri, rc = ws[0].data.get('rhs'), wc[0].data.get('rhs')
         w = S('weight')
-        good = ws[0].data['key'] == wc[0].data['key'] and ws[0].data.get('aug') == 'add' and wc[0].data.get('aug') == 'add'
+        good = ws[0].data.get('key') is not None and ws[0].data.get('key') == wc[0].data.get('key') and \
+            ws[0].data.get('aug') == 'add' and wc[0].data.get('aug') == 'add'
         # rc = X*weight ; ri = abs(X**2)*weight  (abs(X)**2 accepted)
         X = rc / w if isinstance(rc, Poly) else None
         wantA = nf.app('abs', X ** 2) * w if X is not None else None
